@@ -141,6 +141,12 @@ impl VerifClient {
     pub fn is_enabled(&self) -> bool {
         self.inner.is_enabled()
     }
+
+    /// Set the transaction id that the next dequeued request will carry (lets a run start next
+    /// to the 65535 -> 0 wrap)
+    pub fn set_next_tx_id(&mut self, value: u16) {
+        self.inner.set_next_tx_id(value)
+    }
 }
 
 /// A frame produced by the production `FramedReader`
